@@ -489,6 +489,9 @@ func runIso(env *Env) error {
 		switch {
 		case i%11 == 3:
 			sh.wide = 40 + env.Rnd.Intn(120)
+			if i == 3 {
+				sh.wide = 200 // at least one directory well past any batching threshold
+			}
 		case i%11 == 5:
 			sh.manyDirs = 100 + env.Rnd.Intn(200)
 		case i%11 == 7:
@@ -506,6 +509,20 @@ func runIso(env *Env) error {
 		ps3 := env.Rnd.Intn(3) == 0
 		rootName := []string{"img", "My Game", "game-dir_1", "日本", "a?b", strings.Repeat("v", 40)}[env.Rnd.Intn(6)]
 		tree := genIsoTree(env, sh, rootName)
+		if i%20 == 2 { // sibling directories (and a file) whose names collide after mapping, in the primary or in both hierarchies
+			for k, n := range []string{"save data", "save_data", "Extras", "EXTRAS", "extras", "save?data"} {
+				if tree.Child(n) == nil {
+					kid := &WNode{Name: n, Dir: k != 5, MTime: 1300000100 + int64(k)}
+					if kid.Dir {
+						kid.Kids = []*WNode{{Name: fmt.Sprintf("in%d.bin", k), MTime: 1300000200, Content: Content{{Kind: 'g', N: 100 + k, A: k}}}}
+					} else {
+						kid.Content = Content{{Kind: 'g', N: 77, A: 1}}
+					}
+					tree.Kids = append(tree.Kids, kid)
+				}
+			}
+			env.Count("shape_extra", "colliding-siblings")
+		}
 		titleID := ""
 		if ps3 {
 			titleID = []string{"BLES01234", "BCUS98111", "NPEB00001", "ABCD", "ABCDE", strings.Repeat("T", 31)}[env.Rnd.Intn(6)]
